@@ -167,7 +167,7 @@ PROPS["C09"] = {
                    "configurations are sampled (biased towards small bounds so that evictions are frequent)."),
     "level_note": "Trusted: the 100-line list model; re-entrant callbacks are finite scripts (an unbounded re-inserting callback makes room unattainable for any implementation).",
     "rule": ("Config: 60% LRU with MaxCount 1-3 or MaxSize 2-12 and a (mostly re-entrant) OnDelete, 20% bounded without LRU, 20% anything incl. all-zero; "
-             "keys from {a,b,c,d,e,ab,abc}, values of 0-6 bytes; 1-40 (thorough 1-120) actions; re-entrant script of 0-10 operations, each OnDelete invocation "
+             "keys from {a,b,c,d,e,ab,abc and the empty key}, values of 0-6 bytes incl. nil and empty; 1-40 (thorough 1-120) actions; re-entrant script of 0-10 operations, each OnDelete invocation "
              "runs the next 0-2 of them. Non-trivial: history with at least one eviction, or a refused Set without LRU, or an operation executed inside "
              "OnDelete; distinct = distinct (config, history, script)."),
     "assumptions": ["whether the replaced entry counts towards the room needed is not fixed by the statement: the conservative (code) policy and replace-first are both admitted"],
